@@ -23,11 +23,18 @@ def strip(e):
     return e
 
 
+QUERY_ARGC = [None]       # number of parameters of Buffer::get_char (set by run): its position argument is a parameter, whatever its name
+
+
+def _is_param(v):
+    return v[0] == "var" and isinstance(v[1], int) and QUERY_ARGC[0] is not None and 2 <= v[1] <= QUERY_ARGC[0]
+
+
 def is_query_pos(e):
     """the function's position argument (possibly through `.into()`)"""
-    if e[0] == "var" and e[2] == "pos":
+    if _is_param(e):
         return True
-    return e[0] == "call" and e[1].endswith("Into::into") and len(e[2]) == 1 and e[2][0][0] == "var" and e[2][0][2] == "pos"
+    return e[0] == "call" and e[1].endswith("Into::into") and len(e[2]) == 1 and _is_param(e[2][0])
 
 
 def run(chk):
@@ -40,6 +47,7 @@ def run(chk):
     if not chk.anchor(b is not None, "R-VIS", "anchor missing: <Buffer as TextPane>::get_char"):
         return chk.finish("anchor missing")
     key = "Buffer::get_char"
+    QUERY_ARGC[0] = b.argc
     ip.sum.pop(b.id, None)
     ip.summary(b.id)
     res = ip.results[b.id]
